@@ -191,18 +191,28 @@ def run(tier: str) -> int:
             except Exception as ex:  # noqa: BLE001
                 rep.violation(f"raise:veto-then-proposal:{name}:{type(ex).__name__}", f"{name}: a Hamiltonian move with {nref} refused trajectories raised {ex!r}", {"system": name, "refused": nref})
                 continue
-            if not ok or len(drawn) != nref + 1:
-                rep.error(f"veto layer: {name} with {nref} refusals returned {ok} after {len(drawn)} draws (expected success after {nref + 1})")
+            if not ok or not drawn:
+                rep.error(f"veto layer: {name} with {nref} refusals returned {ok} after {len(drawn)} draws (expected success)")
                 continue
-            ref = at.copy()
-            ref.calc = type(at.calc)(**at.calc.parameters) if name in ("emt", "lj") else at.calc
-            ref.set_positions(x0)
-            ref.set_momenta(drawn[-1])
-            Verlet(dt=1.0, max_steps=5).integrate(context_for(ref))
-            dx = np.abs(w.get_positions() - ref.get_positions()).max()
-            dp = np.abs(w.get_momenta() - ref.get_momenta()).max()
-            if dx > 1e-10 or dp > 1e-10 * max(1.0, np.abs(drawn[-1]).max()):
-                rep.violation(f"proposal-after-veto:{name}", f"{name}: the proposal returned after {nref} refused trajectories is not the velocity-Verlet trajectory from the start configuration with the momenta drawn last: positions differ by {dx:.2e} A, momenta by {dp:.2e} (stale forces from a refused trajectory?)", {"system": name, "refused": nref})
+            # the proposal is the trajectory from the start configuration with momenta that were freshly drawn in this trial
+            # (whichever draw the implementation kept), and the kinetic energy remembered for the acceptance test is theirs
+            best = None
+            for mom in drawn[::-1]:
+                ref = at.copy()
+                ref.calc = type(at.calc)(**at.calc.parameters) if name in ("emt", "lj") else at.calc
+                ref.set_positions(x0)
+                ref.set_momenta(mom)
+                k0 = ref.get_kinetic_energy()
+                Verlet(dt=1.0, max_steps=5).integrate(context_for(ref))
+                dx = np.abs(w.get_positions() - ref.get_positions()).max()
+                dp = np.abs(w.get_momenta() - ref.get_momenta()).max()
+                if best is None or dx < best[0]:
+                    best = (dx, dp, k0, mom)
+            dx, dp, k0, mom = best
+            if dx > 1e-10 or dp > 1e-10 * max(1.0, np.abs(mom).max()):
+                rep.violation(f"proposal-after-veto:{name}", f"{name}: the proposal returned after {nref} refused trajectories is not the velocity-Verlet trajectory from the start configuration with momenta drawn in this trial: positions differ by {dx:.2e} A, momenta by {dp:.2e} (stale forces, or momenta that were not the drawn ones?)", {"system": name, "refused": nref})
+            elif abs(float(ctx.last_kinetic_energy) - k0) > 1e-10 * max(1.0, k0):
+                rep.violation(f"kinetic-energy-not-of-the-drawn-momenta:{name}", f"{name}: after {nref} refused trajectories the kinetic energy remembered for the acceptance test is {float(ctx.last_kinetic_energy):.6f}, the momenta the proposal started from have {k0:.6f}", {"system": name, "refused": nref})
             # ... and when the trial is then rejected, the forces the next trajectory starts from are those of the restored
             # configuration (calculators that refill their force array in place must not leak into the remembered results)
             ctx.revert_state()
